@@ -15,9 +15,9 @@ def main():
     a = sys.argv[1:]
     log, name, code = a[0], a[1], int(a[2])
     rest = a[3:]
-    snaps = []
-    while rest and rest[0] == "--snap":
-        snaps.append(rest[1])
+    snaps, lss, conns = [], [], []
+    while rest and rest[0] in ("--snap", "--ls", "--connect"):
+        {"--snap": snaps, "--ls": lss, "--connect": conns}[rest[0]].append(rest[1])
         rest = rest[2:]
     if rest and rest[0] == "--":
         rest = rest[1:]
@@ -46,13 +46,34 @@ def main():
                         "text": data.decode(errors="replace") if len(data) < 20000 else None}
         except FileNotFoundError:
             files[s] = None
+    listings = {}
+    for d in lss:
+        try:
+            listings[d] = sorted(os.listdir(d))
+        except OSError:
+            listings[d] = None
+    connects = {}
+    for a in conns:
+        import socket
+        try:
+            if a.startswith("unix:"):
+                c = socket.socket(socket.AF_UNIX)
+                c.settimeout(0.3)
+                c.connect(a[5:])
+            else:
+                host, port = a.rsplit(":", 1)
+                c = socket.create_connection((host, int(port)), timeout=0.3)
+            c.close()
+            connects[a] = True
+        except OSError:
+            connects[a] = False
     sleep_ms = int(os.environ.get("HOOKREC_SLEEP_MS", "0"))
     if sleep_ms:
         time.sleep(sleep_ms / 1000.0)
     prefixes = tuple(os.environ.get("HOOKREC_ENV_PREFIXES", "VT_").split(","))
     env = {k: v for k, v in os.environ.items() if k.startswith(prefixes)}
     rec = {"kind": "hook", "t": t0, "t_end": time.monotonic_ns(), "name": name, "args": rest,
-           "stdin": stdin, "env": env, "files": files, "exit": code, "overlap": overlap, "pid": os.getpid()}
+           "stdin": stdin, "env": env, "files": files, "ls": listings, "connect": connects, "exit": code, "overlap": overlap, "pid": os.getpid()}
     with open(log, "a") as f:
         fcntl.flock(f, fcntl.LOCK_EX)
         f.write(json.dumps(rec) + "\n")
